@@ -392,6 +392,14 @@ TreeBestClauses(s, m2, sn, boundary) ==
 CallClauses(e) ==
     IF \E c \in AllCalls(e.b) : c[3] # 1 THEN {"C01_EvalInBox"} ELSE {}
 
+\* who evaluated since the previous event (s: the model state the previous event left behind):
+\* C06 "once inactive it ... never evaluates the objective again";
+\* C18 "a hibernating deme performs no objective evaluations ... until a later round sprouts from it"
+AttrClauses(s, e) ==
+    LET who == {d \in BatchDemes(e.b) \cap Ids(s) : BatchCalls(e.b, d) > 0} IN
+        (IF \E d \in who : ~s.D[d].active THEN {"C06_InactiveEvaluates"} ELSE {})
+   \cup (IF \E d \in who : s.D[d].active /\ Asleep(s, d) THEN {"C18_AsleepMeansFrozen"} ELSE {})
+
 MemCalls(m, s, e) ==
     LET calls == AllCalls(e.b)
         mn == IF calls = {} THEN m.mincall
@@ -518,7 +526,7 @@ Step ==
        IN /\ st' = q.st
           /\ mem' = m4
           /\ viol' = viol \cup Tag(p.errs \cup cmp \cup SnapClauses(s2, sn) \cup StateClauses(s2) \cup CallClauses(e)
-                                   \cup fc \cup tb \cup pc \cup sc \cup q.errs \cup idle \cup endc \cup hibc \cup stall \cup probe, l)
+                                   \cup AttrClauses(st, e) \cup fc \cup tb \cup pc \cup sc \cup q.errs \cup idle \cup endc \cup hibc \cup stall \cup probe, l)
     /\ l' = l + 1
     /\ UNCHANGED tid
 
